@@ -337,9 +337,14 @@ def validate_cases(tag, spec, cfg, cases, nshards=14, timeout=1800, xmx="3g", de
                 env.update(env_extra)
             r = run_tlc(spec_path, cfg_path, os.path.join(wd, "meta%d_%d" % (i, rnd)), env=env,
                         timeout=timeout, xmx=xmx, deque=deque)
+            pr = parse_trace_result(r, len(evs))
+            if pr["status"] == "error" and r["rc"] != -9:
+                # a JVM that could not start or ran out of memory on a busy machine: once more, alone
+                time.sleep(5)
+                r = run_tlc(spec_path, cfg_path, os.path.join(wd, "meta%d_%dr" % (i, rnd)), env=env, timeout=timeout, xmx=xmx, deque=deque)
+                pr = parse_trace_result(r, len(evs))
             runs += 1
             states += r["states"]
-            pr = parse_trace_result(r, len(evs))
             if pr["status"] == "accepted":
                 acc += len(cur)
                 evcount += len(evs)
